@@ -316,6 +316,8 @@ class C07(core.Check):
         return None
 
     def run_impl(self, case):
+        if "ast" in case:
+            return {"sites": [list(x) for x in self.scan_sites()[0]]}
         W = widgets()
         urwid = W["urwid"]
         kind = case.get("kind", "item")
@@ -424,7 +426,7 @@ class C07(core.Check):
         return plan
 
     def encode(self, case):
-        if case.get("kind", "item") != "item":
+        if "ast" in case or case.get("kind", "item") != "item":
             return None
         st = case.get("state")
         l = self.enc_items(case["items"]) + [case.get("focus", 0) if case["items"] else -1]
@@ -507,6 +509,8 @@ class C07(core.Check):
 
     # ---------- oracle: written from the property text; uses only the case and what was observed ----------
     def oracle(self, case, res):
+        if "ast" in case:
+            return [m for c, m in self.judge_sites([tuple(x) for x in res["sites"]]) if c["ast"][:4] == case["ast"][:4]]
         msgs = []
         steps = res.get("steps", [])
         pending_since = None     # index of a set_focus whose completion has not been rendered yet
@@ -580,6 +584,8 @@ class C07(core.Check):
         return msgs
 
     def nontrivial(self, case, res):
+        if "ast" in case:
+            return True
         return any(("view" in s and any(row != [-1, -1] for row in s["view"])) or "err" in s for s in res.get("steps", []))
 
     def signature(self, case, msg):
@@ -587,6 +593,9 @@ class C07(core.Check):
         return re.sub(r"\d+", "N", msg)
 
     def distribution(self, case, res, dist):
+        if "ast" in case:
+            return
+
         def inc(k):
             dist[k] = dist.get(k, 0) + 1
         inc("kind:" + case.get("kind", "item") + ("/state" if case.get("state") is not None else "/history"))
@@ -745,6 +754,8 @@ class C07(core.Check):
             yield self.random_history(rng, rng.choice(["item", "item", "real"]), rng.choice([4, 8, 16]))
 
     def shrink_candidates(self, case):
+        if "steps" not in case:
+            return
         steps = case["steps"]
         for i in range(len(steps) - 1, -1, -1):
             c = dict(case)
@@ -775,19 +786,22 @@ class C07(core.Check):
                 yield c
 
     # ---------- the two-writers scan (part of the tie between the theorems and the code) ----------
-    def extra_checks(self, tier, rng, ev):
-        viols = []
-        sites = []
+    def scan_sites(self):
+        sites, problems = [], []
         root = os.path.join(core.REPO, "urwid")
         for path in sorted(glob.glob(os.path.join(root, "**", "*.py"), recursive=True)):
             rel = os.path.relpath(path, core.REPO)
             try:
                 tree = ast.parse(open(path, encoding="utf8").read())
             except SyntaxError as e:
-                viols.append(({"ast": rel}, f"cannot parse {rel}: {e}"))
+                problems.append(({"ast": [rel, "", "", "", 0, "syntax"]}, f"cannot parse {rel}: {e}"))
                 continue
             self._scan(tree, rel, sites)
-        ev["dist"]["view_state_write_sites"] = len(sites)
+        return sites, problems
+
+    @staticmethod
+    def judge_sites(sites):
+        viols = []
         expected = {("urwid/widget/listbox.py", "ListBox", fn) for fn in WRITERS}
         per = {}
         for rel, cls, fn, attr, line, how in sites:
@@ -801,9 +815,14 @@ class C07(core.Check):
             for attr in VIEW_ATTRS:
                 got = per.get(("urwid/widget/listbox.py", "ListBox", fn, attr), 0)
                 if got != cnt:
-                    viols.append(({"ast": ["urwid/widget/listbox.py", "ListBox", fn, attr, got]},
+                    viols.append(({"ast": ["urwid/widget/listbox.py", "ListBox", fn, attr, got, "count"]},
                                   f"ListBox.{fn} writes {attr} at {got} sites, the model has {cnt}"))
         return viols
+
+    def extra_checks(self, tier, rng, ev):
+        sites, problems = self.scan_sites()
+        ev["dist"]["view_state_write_sites"] = len(sites)
+        return problems + self.judge_sites(sites)
 
     @staticmethod
     def _scan(tree, rel, sites):
@@ -851,11 +870,53 @@ class C07(core.Check):
                 visit(child, c, f)
         visit(tree, None, None)
 
-    level_text = ""
-    level_note = ""
-    rule = ""
-    trusted_base = []
-    assumptions = []
+    technique = ("Coq proof that EVERY view state with offset_rows >= 0 and 0 <= inum < iden renders a gap-free window "
+                 "(three fill loops of calculate_visible in closed form, lia), that the only two writers of the view state "
+                 "establish that invariant and that any history preserves it; hand model tied by an exact extracted-model "
+                 "correspondence on states and histories; ast scan of the write sites; slice oracle on real list boxes")
+    level_text = ("Proved in Coq, no size bounds (view_ok): for every list of flow widgets with heights >= 0 (zero-height included), "
+                  "every focus, offset_rows >= 0, inset fraction 0 <= n < d, maxrow >= 1, focus flag and cursor row inside the "
+                  "focus widget, render of a list box with no focus request pending does not raise and shows the slice "
+                  "[p, p+maxrow) of the stacked item rows followed by blanks only; blanks only when p = 0; a focus item with >= 1 "
+                  "row has a row in the slice; the cursor row is in the slice at the canvas cursor.  Proved: shift_focus and "
+                  "change_focus (the only writers of offset_rows/inset_fraction - ast scan of all of urwid on every run) always "
+                  "leave such a state; any history of render / up / down / item keys / mouse press and wheel / set_focus / direct "
+                  "shift_focus, change_focus, make_cursor_visible calls / walker edits, interleaved with arbitrary un-modelled "
+                  "operations that leave such a state, keeps it (history_keeps_view_ok, render_after_any_history); a button-1 "
+                  "press on a row showing a selectable item focuses it (mouse_press_focuses).  REFUTED in model and code "
+                  "(render_with_stale_pending_refuted, KNOWN-FINDING): render raises when a set_focus request is pending and "
+                  "its old position was deleted.  NOT proved (render_any_history_full, stated): that completing a pending "
+                  "request ('first selectable', set_focus with a live old position) inside render never raises - "
+                  "correspondence and oracle only.  NOT modelled: page up/down, home/end, set_focus_valign (their resulting "
+                  "states are covered by view_ok through the writers argument; 'does not raise' for them is oracle only); "
+                  "widgets whose rows()/render()/cursor disagree; wrap-around walkers; maxrow = 0.")
+    level_note = ("Trusted: Coq kernel; the hand transcription Model/ListBoxView.v (validated by exact correspondence: 17 100 "
+                  "directly written states + ~2000 random histories per quick run on three walker kinds); the ast scan "
+                  "that finds every assignment to offset_rows/inset_fraction; ExtrOcamlBasic extraction + OCaml driver; the "
+                  "Python oracle.  Assumes item widgets whose rows() and render() agree and whose cursor row lies inside the "
+                  "widget, heights >= 0, maxrow >= 1, index walkers without wrap-around.")
+    rule = ("cases = (walker kind, items [rows, selectable, cursor row], focus, optional directly written offset_rows / "
+            "inset_fraction, steps); each step is one action (render only, up/down/page up/page down/home/end/item keys, mouse "
+            "press button 1/2/4/5, set_focus with coming_from, set_focus_valign, shift_focus, change_focus, "
+            "make_cursor_visible, walker insert/delete/replace/clear, in-place reflow of every item) followed by "
+            "render((cols, maxrow), focus) unless flagged 'nr'.  Exhaustive states: <= 3 items x heights 0..3 x maxrow 1..4 x "
+            "every focus x offset 0..maxrow+1 x inset fractions x cursor rows; random histories on item widgets (model "
+            "compared) and on real Text/Edit/selectable widgets (oracle only); every key pair on small lists.  "
+            "non-trivial = some render showed an item row or something raised; distinct by hash of (case, outcome)")
+    trusted_base = [
+        "Coq 8.16.1 kernel (coqc; vm_compute only in closed examples and the refutation witness)",
+        "hand transcription of calculate_visible/render/shift_focus/change_focus/make_cursor_visible/_set_focus_complete/"
+        "_set_focus_first_selectable/_keypress_up/_keypress_down/mouse_event in Model/ListBoxView.v (validated by this correspondence, not proved against Python)",
+        "the ast scan in harness/props/c07.py (assignment, augmented assignment, del, for/with targets, setattr/delattr of offset_rows / inset_fraction anywhere in urwid/)",
+        "extraction: ExtrOcamlBasic only; Z/positive stay Coq datatypes; OCaml 4.13.1; tools/driver/driver.ml",
+        "the labelled-row test widgets and the Python oracle in harness/props/c07.py",
+    ]
+    assumptions = [
+        "item widgets: rows() >= 0, rows() and render() agree, the cursor row reported lies inside the widget (hypotheses heights_ok / cursor_ok of view_ok)",
+        "maxrow >= 1 (StateOK); positions are list indices, no wrap-around walker",
+        "view_ok is about a list box with no focus request pending; completion of pending requests is covered by correspondence + oracle (and refuted for stale requests)",
+        "page up/down, home/end, set_focus_valign are not modelled: any state they leave is ViewOK because they write the view state only through shift_focus/change_focus (ast scan); exceptions raised by keypress itself are recorded, not flagged",
+    ]
 
 
 CHECK = C07
